@@ -26,6 +26,8 @@ type vfsWriter struct{ f *zzvrt.File }
 
 func (w vfsWriter) Write(b []byte) (int, error) { return w.f.Write(b) }
 
+const crashEarlier = "EARLIER-LIFE: a line this process's previous life (same second, same file name) was acknowledged for\n"
+
 type crashObs struct {
 	acks []string
 	err  string
@@ -47,8 +49,13 @@ func crashRun(c c03Cfg, threads [][]c03Event, o *crashObs, stop bool, faultOp st
 			return
 		}
 		log.Stdout = vfsWriter{f}
+		if c.preExist {
+			x.FS.Put("/logs/app.log."+x.Now.Format("20060102150405"), []byte(crashEarlier), x.Now)
+		}
 		if err := log.Refresh(c.config()); err != nil {
 			o.err = "refresh: " + err.Error()
+		} else if c.rootless {
+			log.Destroy() // the events below are served by the built-in console logger, after a configuration without a root has come and gone
 		}
 	})
 	if o.err != "" {
@@ -104,6 +111,9 @@ func crashScenario(c c03Cfg, b zzvrt.Bounds, faultOps ...string) *zzvrt.Scenario
 			}
 		}
 	}
+	if c.preExist {
+		isLine[crashEarlier] = true
+	}
 	var o crashObs
 	return &zzvrt.Scenario{
 		Before: func() { resetAll(); o = crashObs{} },
@@ -140,6 +150,9 @@ func crashScenario(c c03Cfg, b zzvrt.Bounds, faultOps ...string) *zzvrt.Scenario
 					v = append(v, zzvrt.Violation{Clause: "acknowledged-line-missing", Key: key,
 						Detail: fmt.Sprintf("outcome=%q: call for %q had returned but its line is not in the target (target=%q)", x.Outcome, a, content)})
 				}
+			}
+			if c.preExist && o.err == "" && !strings.Contains(content, crashEarlier) {
+				v = append(v, zzvrt.Violation{Clause: "earlier-line-gone", Key: key, Detail: fmt.Sprintf("outcome=%q: the file already held a complete line (an earlier life of the process, same file name); it is no longer there whole (target=%q)", x.Outcome, trunc300(content))})
 			}
 			if c.sink == "rolling-logger+separate" {
 				// the target of an event at WARN or above is the .wf file, of the others the plain file
@@ -190,6 +203,25 @@ func init() {
 				return crashScenario(c03Cfg{layout: layout, sink: sink, threads: mixed}, b)
 			})
 		}
+	}
+	// "... and stays there": the file of the current interval exists already (a restart within the same second, a second
+	// process) and holds an acknowledged line; nothing this life writes may replace it
+	for _, sink := range []string{"rolling", "rolling-logger"} {
+		sink := sink
+		register("C20", "c20/"+sink+"/file-exists-already/1x3", "qt", func(tier string) *zzvrt.Scenario {
+			b := zzvrt.Bounds{Preempt: 1, Horizon: 5000}
+			b.Env[zzvrt.SeamCrash] = 1
+			return crashScenario(c03Cfg{layout: "TextLayout", sink: sink, threads: shapes["1x3"], preExist: true}, b)
+		})
+	}
+	// the built-in console logger AFTER a lifecycle: a configuration without a root logger was live and has been destroyed
+	for _, shape := range []string{"1x3", "2x2"} {
+		shape := shape
+		register("C20", "c20/builtin-after-rootless-configuration/"+shape, "qt", func(tier string) *zzvrt.Scenario {
+			b := zzvrt.Bounds{Preempt: 1, Horizon: 5000}
+			b.Env[zzvrt.SeamCrash] = 1
+			return crashScenario(c03Cfg{layout: "TextLayout", sink: "console", threads: shapes[shape], rootless: true}, b)
+		})
 	}
 	// a level on the way: the rolling-file logger with its own level, a logger-level layout in front of two references
 	// that carry a level (everything logged here is at or above it: nothing may be held back or dropped)
